@@ -71,3 +71,13 @@ Proof.
   destruct (StmtTrip.parse_of_generated_block_item P rp x Hw s le stop l0 HS HU Hop) as [f0 [N [s' [H _]]]]. exists f0, N, s'. exact H.
 Qed.
 Print Assumptions C01_generated_statements_accepted.
+
+(* ... and with DECLARATIONS of objects as block items (`T x;`, `T x = e;`, T a run of simple type-specifier keywords), at any
+   nesting depth, from every parser state whose scope stack holds no typedef name (the initial state of parse() is one):
+   the statement is accepted (proofs/DeclTrip.v, StmtTrip.v). *)
+Theorem C01_generated_statements_with_declarations_accepted : forall (P: Type) rp (x: StmtTrip.st), StmtTrip.swfD x ->
+  forall (s: ParserBase.pstate P) le stop l0, RoundTrip.Spell P le (StmtTrip.stoks rp x) -> StreamLib.Up P s (le ++ stop :: l0) ->
+  (StmtTrip.sopen x = true -> kind_eqb (ParserBase.tk stop) K_ELSE = false) -> StreamLib.NoTD (ParserBase.scopes P s) ->
+  exists f0 N s', forall f, (f0 <= f)%nat -> ParserMain.p_statement P f s = ParserBase.Ok (N, s').
+Proof. exact StmtTrip.statements_with_decls_accepted. Qed.
+Print Assumptions C01_generated_statements_with_declarations_accepted.
